@@ -339,6 +339,13 @@ def gen_local(seed, tier):
                 prog.append({"op": "fire", "calc": c, "shot": trace_shot, "range": [gen.pick(rng, [40.0, 80.0, 150.0]), "Yard"],
                              "step": [1000.0, "Yard"], "extra": True, "time_step": 1e-9, "trace": True})
     prog.append({"op": "reset_globals"})
+    import random as _random
+    r2 = _random.Random(repr(rng.getstate()[1][:6]) + "clone")          # side stream: other draws of a seed stay as they were
+    for op in prog:
+        # a COPY of the calculator (copy / deepcopy / pickle round trip, as when work is handed to another process) carries
+        # the settings of the calculator it was copied from - not whatever the process-wide default is at copy time
+        if op.get("op") == "fire" and r2.random() < 0.2:
+            op["clone"] = {"what": gen.pick(r2, ["calc", "calc", "both"]), "how": gen.pick(r2, ["copy", "deepcopy", "pickle"])}
     return {"seed": seed, "mode18": "local", "world": w, "programs": [prog], "roles": {"0": "client"},
             "config": {"mode": gen.pick(rng, ["none", "cold"]), "policy": "serial", "mean_run": 1000, "opcode": False},
             "faults": []}
